@@ -42,6 +42,11 @@ func (o *ObjectRangeRequest) Range(size int64) (*ObjectRange, error) {
 			// If no end is specified, range extends to end of the file.
 			length = size - start
 		} else {
+			if end >= size {
+				// Clip before computing the length: end-start+1 (and later
+				// start+length) overflows for ends close to math.MaxInt64.
+				end = size - 1
+			}
 			length = end - start + 1
 		}
 
